@@ -20,6 +20,7 @@ struct Shape
     int child;    // index into valueOps or -1 (leaf only)
     int pos;
     int arity;
+    bool zero = false; // one operand of the child is the literal 0 (logical parents: !(a*b) vs (!a)*b differ only then)
 };
 
 static std::vector<Shape> allShapes()
@@ -41,6 +42,13 @@ static std::vector<Shape> allShapes()
             for (int pos = 0; pos < ar; ++pos) {
                 for (int c = -1; c < static_cast<int>(ops.size()); ++c) {
                     s.push_back({static_cast<int>(p), c, pos, ar});
+                    // an arithmetic child of a logical operator, once more with a zero among its operands
+                    bool logical = ops[p].op == Op::NOT || ops[p].op == Op::AND || ops[p].op == Op::OR || ops[p].op == Op::XOR;
+                    if (logical && c >= 0 && !ops[static_cast<size_t>(c)].boolean && ops[static_cast<size_t>(c)].op != Op::PIECEWISE) {
+                        Shape z {static_cast<int>(p), c, pos, ar};
+                        z.zero = true;
+                        s.push_back(z);
+                    }
                 }
             }
         }
@@ -57,11 +65,11 @@ static int64_t scaledModels();
 
 int64_t vh_case_count(const std::string &tier, uint64_t)
 {
-    // quick: a seed-chosen third of the shape models + systems; thorough: all shape models + random trees + systems
+    // quick: all shape models + half of the converted-operand models + systems; thorough: + random trees, all converted-operand models twice, more systems
     if (tier == "thorough") {
         return shapeModels() + 600 + 2 * scaledModels() + 2500;
     }
-    return shapeModels() / 3 + (scaledModels() + 1) / 2 + 150;
+    return shapeModels() + (scaledModels() + 1) / 2 + 150;
 }
 
 // ---------- layer 1: expression shapes in one dimensionless component ----------
@@ -125,6 +133,9 @@ static ExprP buildShape(Rng &rng, const Shape &sh)
         const auto &ci = ops[static_cast<size_t>(sh.child)];
         int ar = ci.op == Op::PIECEWISE ? 3 : (ci.maxArity < 0 ? (rng.chance(0.5) ? ci.minArity : 3) : rng.range(ci.minArity, ci.maxArity));
         child = buildOp(rng, ci, ar, -1, nullptr);
+        if (sh.zero && !child->kids.empty()) {
+            child->kids[rng.below(child->kids.size())] = mkCnD(0.0);
+        }
     }
     return buildOp(rng, ops[static_cast<size_t>(sh.parent)], sh.arity, sh.pos, child);
 }
@@ -136,7 +147,7 @@ static std::string shapeName(const Shape &sh)
     std::string s = std::string(opName(p.op)) + (p.qualifier ? "^q" : "") + "/" + std::to_string(sh.arity);
     if (sh.child >= 0) {
         const auto &c = ops[static_cast<size_t>(sh.child)];
-        s += "(" + std::string(opName(c.op)) + (c.qualifier ? "^q" : "") + "@" + std::to_string(sh.pos) + ")";
+        s += "(" + std::string(opName(c.op)) + (c.qualifier ? "^q" : "") + "@" + std::to_string(sh.pos) + (sh.zero ? ",zero-operand" : "") + ")";
     } else {
         s += "(leaf@" + std::to_string(sh.pos) + ")";
     }
@@ -681,11 +692,10 @@ void vh_run_case(Ctx &ctx)
         }
         return;
     }
-    int64_t third = nShapeModels / 3;
+    int64_t third = nShapeModels; // (named when the quick tier ran a third of the shape models; it runs all of them now)
     int64_t half = (scaledModels() + 1) / 2;
     if (ctx.index < third) {
-        // a seed-chosen third of the shape models (stride 3 with a seed-dependent offset)
-        runShapes(ctx, (ctx.index * 3 + static_cast<int64_t>(ctx.seed % 3)) % nShapeModels, false);
+        runShapes(ctx, ctx.index, false);
     } else if (ctx.index < third + half) {
         // a seed-chosen half of the converted-operand models
         // (model 0, the bare-variable equations, is always among them)
